@@ -46,6 +46,9 @@ def numLabels : DName → Nat
   | n => n.length
 end DName
 
+/-- `Name::zone_of` on lower-case names: `z` is a suffix of `n` -/
+def zoneOf (z n : DName) : Bool := z.length ≤ n.length && n.drop (n.length - z.length) == z
+
 inductive Proof where
   | secure | insecure | bogus | indet
   deriving DecidableEq, Repr, Inhabited
@@ -201,7 +204,8 @@ def fetchDs (sub : Query → Res) (zone : DName) : DsFetch :=
       if au.getD false then .err .insecure
       else if !sup.isEmpty then .ok sup
       else .err .bogus
-    else if !(m.an.any (·.rtype == tDS)) then
+    else if m.an.isEmpty then
+      -- only a negative response is a denial of the DS RRset (fix aabfc01):
       -- "marking zone as insecure based on secure NSEC/NSEC3 proof or insecure parent zone"
       .err .insecure
     else .err .bogus
@@ -266,6 +270,8 @@ def keyProofs (env : Env) (recs : List Rec) (ds : List Rec) : List Proof :=
   recs.map fun r => if env.anchor r.rid then .secure else verifyDnskey env r ds
 
 def verifyDnskeyRrset (env : Env) (sub : Query → Res) (gid : GroupId) (recs sigs : List Rec) : GV :=
+  -- RRSIGs covering DNSKEY without any DNSKEY record: Bogus, the first RRSIG marked (fix e338561)
+  if recs.isEmpty then .done .bogus (if sigs.isEmpty then none else some 0) else
   let allAnchors := recs.all fun r => env.anchor r.rid
   let dsr : DsFetch := if !allAnchors && !gid.name.isRoot then fetchDs sub gid.name else .ok []
   match dsr with
@@ -280,10 +286,11 @@ def verifyDnskeyRrset (env : Env) (sub : Query → Res) (gid : GroupId) (recs si
       match firstSig env gid (recs.zip p1) sigs 0 with
       | some (p, i) => .done p (some i)
       | none =>
-        if p1.all (· == .secure) then
+        -- the no-signature shortcut is for trust anchors only (fix 8ec5af8)
+        if allAnchors && p1.all (· == .secure) then
           match p1.getLast? with
           | some p => .done p none
-          | none => .abort "panic"  -- `dnskey_proofs.pop().unwrap()`
+          | none => .abort "panic"  -- `dnskey_proofs.pop().unwrap()`: unreachable, `recs` is not empty
         else .done .bogus none
 
 /-! ## `verify_rrsig_with_keys` -/
@@ -309,7 +316,9 @@ def scanKeys (env : Env) (gid : GroupId) (sig : Rec) : List Rec → Option Bool 
 
 def verifyRrsigWithKeys (env : Env) (gid : GroupId) (m : Msg) (sig : Rec) : Option Proof :=
   if (gid.rtype == tNSEC || gid.rtype == tNSEC3) && gid.name.numLabels != sig.labels then none
-  else scanKeys env gid sig (capKeys (m.an.filter (·.rtype == tDNSKEY)) []) none
+  else
+    -- only DNSKEYs owned by the signer are looked at (fix 207ce2a)
+    scanKeys env gid sig (capKeys (m.an.filter fun k => k.rtype == tDNSKEY && k.name == sig.signer) []) none
 
 /-! ## `verify_default_rrset` -/
 
@@ -325,9 +334,12 @@ def selectOk (env : Env) (sub : Query → Res) (gid : GroupId) : List (Rec × Na
       | none => .done .bogus none
     | _ => selectOk env sub gid rest
 
-def sigCands (q : Query) (sigs : List Rec) : List (Rec × Nat) :=
+/-- the RRSIGs that are tried: the signer must be the owner or an ancestor of the owner (fix 207ce2a), the RRSIG
+cap, the cycle break -/
+def sigCands (q : Query) (owner : DName) (sigs : List Rec) : List (Rec × Nat) :=
   sigs.zipIdx.filter fun si =>
-    si.2 ≤ Generated.MAX_RRSIGS_PER_RRSET && !(si.1.signer == q.name && q.qtype == tDNSKEY)
+    zoneOf si.1.signer owner &&
+      (si.2 ≤ Generated.MAX_RRSIGS_PER_RRSET && !(si.1.signer == q.name && q.qtype == tDNSKEY))
 
 def verifyDefaultRrset (env : Env) (sub : Query → Res) (q : Query) (gid : GroupId) (sigs : List Rec) : GV :=
   if sigs.isEmpty then
@@ -339,7 +351,7 @@ def verifyDefaultRrset (env : Env) (sub : Query → Res) (q : Query) (gid : Grou
       | .ok => .done .bogus none
     else .done .bogus none
   else
-    selectOk env sub gid (sigCands q sigs)
+    selectOk env sub gid (sigCands q gid.name sigs)
 
 /-! ## `verify_rrsets` + `update_rrset` -/
 
@@ -400,6 +412,15 @@ def allAuthInsecure (ns' : List Rec) (vn : List (GKey × GV)) : Bool :=
 def selectDenial (ns' : List Rec) (t : Nat) : List (Rec × Nat) :=
   ns'.zipIdx.filter fun ri => ri.1.rtype == t && ns'.any fun x => x.name == ri.1.name && x.proof == .secure
 
+/-- a record (not just an RRSIG) of the queried type, or a CNAME, at the query name -/
+def answersTheQuestion (q : Query) (an : List Rec) : Bool :=
+  an.any fun r => r.name == q.name &&
+    (r.rtype == q.qtype || r.rtype == 5 || (q.qtype == 255 && r.rtype != tRRSIG))
+
+/-- a record of the query name and type in the answer section -/
+def plainAnswer (q : Query) (an : List Rec) : Bool :=
+  an.any fun r => r.name == q.name && r.rtype == q.qtype
+
 def verifyMsg (env : Env) (sub : Query → Res) (d : Nat) (q : Query) (qid : Nat) (m : Msg) : Res :=
   let va := verdicts env sub d q qid 0 m.an
   let vn := verdicts env sub d q qid 1 m.ns
@@ -408,8 +429,22 @@ def verifyMsg (env : Env) (sub : Query → Res) (d : Nat) (q : Query) (qid : Nat
   | some w => .abort w
   | none =>
     let m' : Msg := { rcode := m.rcode, an := relabel m.an va, ns := relabel m.ns vn, ad := relabel m.ad vd }
-    if allAuthInsecure m'.ns vn then .ok m'
-    else
+    let dsName := if q.qtype == tDS then q.name.baseName else q.name
+    -- Insecure authority records settle the response only if the query name itself lies in a provably
+    -- insecure zone (fix 2bee91e)
+    let early : Option Res :=
+      if allAuthInsecure m'.ns vn then
+        match findDs env sub dsName with
+        | .abort w => some (.abort w)
+        | .err .insecure => some (.ok m')
+        | _ => none
+      else none
+    match early with
+    | some r => r
+    | none =>
+      -- a plain positive NOERROR answer (an RRset of the query name and type, no wildcard expansion) asserts no
+      -- non-existence: denial records attached to it are not evaluated (fix a0f75fc)
+      if !mustValidateNsec m.an va && m'.rcode == 0 && plainAnswer q m'.an then .ok m' else
       let nsec3s := selectDenial m'.ns tNSEC3
       let nsecs := selectDenial m'.ns tNSEC
       let ansMask := maskOf (m'.an.zipIdx.filter fun ri => ri.1.isSig && ri.1.proof == .secure)
@@ -420,9 +455,10 @@ def verifyMsg (env : Env) (sub : Query → Res) (d : Nat) (q : Query) (qid : Nat
       | true, true, _ => .errNsec .bogus
       | false, false, true => .errNsec .bogus
       | false, false, false =>
-        if !m'.an.isEmpty then .ok m'
+        -- "answers present" only counts if they answer the question (fix 2bee91e)
+        if answersTheQuestion q m'.an then .ok m'
         else
-          match findDs env sub (if q.qtype == tDS then q.name.baseName else q.name) with
+          match findDs env sub dsName with
           | .abort w => .abort w
           | .err .insecure => .ok m'
           | _ => .errNsec .bogus
@@ -459,9 +495,6 @@ def summaryGo : List Rec → Option Bool → Summary
 
 def summary (rs : List Rec) : Summary := summaryGo rs none
 
-/-- `Name::zone_of` on lower-case names: `z` is a suffix of `n` -/
-def zoneOf (z n : DName) : Bool := z.length ≤ n.length && n.drop (n.length - z.length) == z
-
 /-- `DnsResponse::contains_answer` -/
 def containsAnswer (q : Query) (m : Msg) : Bool :=
   if q.qtype == 255 then m.all.any (·.name == q.name)
@@ -488,12 +521,13 @@ def forwarded (q : Query) : Res → Fwd
     else .answers m
   | _ => .error
 
-/-- the records the summary is taken over: the answers, or — for a negative answer that has a SOA — the
-authority records other than the SOA (the SOA itself is not looked at); without a SOA, nothing -/
+/-- the records the summary is taken over (fix cdd0f6a): the answers; if there are none, the authority section
+— for a `NoRecordsFound` the authority records other than SOAs followed by the first SOA, which is also what
+the server forwards as the authority section -/
 def summarised (q : Query) (r : Res) : List Rec :=
   match forwarded q r with
-  | .answers m => m.an
-  | .noRecords m => if m.ns.any (·.rtype == tSOA) then m.ns.filter (·.rtype != tSOA) else []
+  | .answers m => if !m.an.isEmpty then m.an else m.ns
+  | .noRecords m => m.ns.filter (·.rtype != tSOA) ++ (m.ns.find? (·.rtype == tSOA)).toList
   | .error => []
 
 /-- response code and AD bit of the forwarded response (`build_forwarded_response`) for a client with RD and
@@ -521,64 +555,11 @@ def traceUp (trace : List (Query × UpOut)) (q : Query) : Resp := traceFind trac
 
 /-! ## known-finding classes (decidable predicates on the upstream trace) -/
 
-/-- `C07.DsAnswerWithoutDsAccepted`: a DS response whose answer section is non-empty yet holds no DS -/
-def dsAnswerWithoutDs (trace : List (Query × UpOut)) : Bool :=
-  trace.any fun e =>
-    e.1.qtype == tDS &&
-      match e.2 with
-      | .ok m | .noRecords m => !m.an.isEmpty && !(m.an.any (·.rtype == tDS))
-      | _ => false
-
-/-- `C07.OrphanDnskeyRrsigPanic`: an RRSIG covering DNSKEY without a DNSKEY of that owner in its section -/
-def orphanDnskeyRrsigIn (sec : List Rec) : Bool :=
-  sec.any fun s => s.isSig && s.covered == tDNSKEY &&
-    !(sec.any fun k => k.rtype == tDNSKEY && k.name == s.name)
-
-def orphanDnskeyRrsig (trace : List (Query × UpOut)) : Bool :=
-  trace.any fun e =>
-    match e.2 with
-    | .ok m | .noRecords m => orphanDnskeyRrsigIn m.an || orphanDnskeyRrsigIn m.ns || orphanDnskeyRrsigIn m.ad
-    | _ => false
-
-/-- `C07.UnsignedDnskeyRrsetSecure` / `C07.AnchorKeyForeignOwnerSecure` (on a validated section): a DNSKEY
-record is Secure although no RRSIG over its RRset is marked as the one that validated it -/
-def unsignedSecureDnskeyIn (sec : List Rec) : Bool :=
-  sec.any fun r => r.rtype == tDNSKEY && r.proof == .secure &&
-    !(sec.any fun s => s.isSig && s.covered == tDNSKEY && s.name == r.name && s.proof == .secure)
-
-/-- `C07.AnchorKeyForeignOwnerSecure`: a DNSKEY whose key is a trust anchor, under a non-root owner -/
+/-- `C07.AnchorKeyForeignOwnerSecure` (open): a DNSKEY whose key is a trust anchor, under a non-root owner -/
 def anchorKeyForeignOwner (env : Env) (trace : List (Query × UpOut)) : Bool :=
   trace.any fun e =>
     match e.2 with
     | .ok m | .noRecords m => m.all.any fun r => r.rtype == tDNSKEY && env.anchor r.rid && !r.name.isRoot
     | _ => false
-
-/-- `C07.AdIgnoresSoaProof` (on the validated message): a negative answer in which every authority record
-that is not Secure is a SOA record, and there is such a SOA -/
-def soaOnlyNotSecure (m : Msg) : Bool :=
-  m.an.isEmpty && m.ns.any (fun r => r.rtype == tSOA && r.proof != .secure) &&
-    m.ns.all fun r => r.proof == .secure || r.rtype == tSOA
-
-/-- `C07.BogusNegativeWithoutSoaForwarded`: a negative answer without a SOA that carries a Bogus record -/
-def bogusNegativeWithoutSoa (m : Msg) : Bool :=
-  m.an.isEmpty && !(m.ns.any (·.rtype == tSOA)) && m.ns.any (·.proof == .bogus)
-
-/-- the answer section holds a record of the queried type, or a CNAME, at the query name -/
-def answersQuestion (q : Query) (m : Msg) : Bool :=
-  m.an.any fun r => r.name == q.name && (r.rtype == q.qtype || r.rtype == 5)
-
-/-- `C07.AnswerSectionWithoutAnswerAccepted` (on the validated message): a non-empty answer section that does
-not answer the question, nothing marked Bogus -/
-def answerSectionWithoutAnswer (q : Query) (m : Msg) : Bool :=
-  !m.an.isEmpty && !answersQuestion q m && !((m.an ++ m.ns).any (·.proof == .bogus))
-
-/-- `C07.InsecureAuthorityAcceptsDenial`: an empty answer section with an authority section that is Insecure
-throughout (exit 1 of `ok_exits`) -/
-def insecureAuthorityDenial (m : Msg) : Bool :=
-  m.an.isEmpty && !m.ns.isEmpty && m.ns.all (·.proof == .insecure)
-
-/-- `C07.SoaAnswerWithoutSoaNotServfail`: a SOA query whose non-empty answer section comes without any SOA -/
-def soaAnswerWithoutSoa (q : Query) (m : Msg) : Bool :=
-  q.qtype == tSOA && !m.an.isEmpty && !(m.all.any (·.rtype == tSOA))
 
 end HickoryVerif.Chain
